@@ -4,15 +4,16 @@ package dastard
 
 // C11 — control requests are serialised with data, answered exactly once, and never wedge or crash.
 // Engine B. Part 1 enumerates request types x argument classes x I/O faults with one requester thread
-// (exact deadlock verdicts instead of time-outs); part 2 explores the timing: requester(s), the real
+// (exact deadlock verdicts instead of time-outs), alone, twice in a row (requests that have to be refused),
+// and followed by Stop + Start + triggering blocks (v11RunHistory); part 2 explores the timing: requester(s), the real
 // CoreLoop, a producer that continues / errors / closes, and an optional Stop caller.
 
 import (
-	"runtime"
 	"encoding/base64"
 	"fmt"
 	"os"
 	"path/filepath"
+	"runtime"
 	"strings"
 	"sync/atomic"
 	"testing"
@@ -35,10 +36,11 @@ type v11Source struct {
 	inMutator int32
 	overlap   string
 	frame     int
-	doneCh    chan struct{} // one token per processed block
-	pulses    bool          // blocks of 24 samples with a pulse on channel 0 (so that triggers fire)
-	keepPub   bool          // keep the processors' publish channels (C17 drains them like the ZMQ goroutines do)
-	zeroBased bool          // channel numbers start at 0 (generic source default) instead of 1
+	doneCh    chan struct{}     // one token per processed block
+	pulses    bool              // blocks of 24 samples with a pulse on channel 0 (so that triggers fire)
+	keepPub   bool              // keep the processors' publish channels (C17 drains them like the ZMQ goroutines do)
+	zeroBased bool              // channel numbers start at 0 (generic source default) instead of 1
+	updates   chan ClientUpdate // the receiving end of the SourceControl's client-update queue (v11NewControl)
 }
 
 func v11New(after string, nblocks int) *v11Source {
@@ -236,10 +238,16 @@ func init() {
 type v11Req struct {
 	zeroBased bool
 	name      string
-	wantErr   bool // error expected (invalid argument, I/O fault, unsupported)
-	either    bool // the statement does not fix whether this is an error
-	setup     func(e *v11Env)
-	call      func(e *v11Env) error
+	wantErr   bool   // error expected (invalid argument, I/O fault, unsupported)
+	lengths   [2]int // {npre, nsamp} asked for by a record-length request (zero value: another request type)
+	// cured: the request is invalid because of server state (not its arguments), and the server's documented reaction
+	// to rejecting it removes that state: a START with a pixel map that does not fit the source is answered with
+	// "map file invalidated: ..." and the map is unloaded. The identical request sent again is then a START without a
+	// map, a different (valid) case: the repeat family requires a reply and no crash, not a second error.
+	cured  bool
+	either bool // the statement does not fix whether this is an error
+	setup  func(e *v11Env)
+	call   func(e *v11Env) error
 }
 
 type v11Env struct {
@@ -307,13 +315,19 @@ func v11Requests() []v11Req {
 			return e.sc.ConfigurePulseLengths(SizeObject{Nsamp: ns, Npre: np}, &ok)
 		}
 	}
-	add("ConfigurePulseLengths/valid-change", false, size(20, 5))
-	add("ConfigurePulseLengths/unchanged", false, size(12, 4))
-	add("ConfigurePulseLengths/zero", true, size(0, 0))
-	add("ConfigurePulseLengths/negative", true, size(-5, 3))
-	add("ConfigurePulseLengths/npre>=nsamp", true, size(6, 6))
-	add("ConfigurePulseLengths/npre<3", true, size(10, 2))
-	addS("ConfigurePulseLengths/while-writing", true, func(e *v11Env) { e.writingOn() }, size(20, 5))
+	addSize := func(name string, wantErr bool, ns, np int, setup func(e *v11Env)) {
+		rs = append(rs, v11Req{name: name, wantErr: wantErr, setup: setup, lengths: [2]int{np, ns}, call: size(ns, np)})
+	}
+	addSize("ConfigurePulseLengths/valid-change", false, 20, 5, nil)
+	addSize("ConfigurePulseLengths/valid-shorter", false, 9, 3, nil)
+	addSize("ConfigurePulseLengths/unchanged", false, 12, 4, nil)
+	addSize("ConfigurePulseLengths/zero", true, 0, 0, nil)
+	addSize("ConfigurePulseLengths/negative", true, -5, 3, nil)
+	addSize("ConfigurePulseLengths/npre>=nsamp", true, 6, 6, nil)
+	addSize("ConfigurePulseLengths/npre>nsamp", true, 5, 8, nil)
+	addSize("ConfigurePulseLengths/npre<3", true, 10, 2, nil)
+	addSize("ConfigurePulseLengths/npre=1", true, 10, 1, nil)
+	addSize("ConfigurePulseLengths/while-writing", true, 20, 5, func(e *v11Env) { e.writingOn() })
 
 	proj := func(ch int, p, b string) func(e *v11Env) error {
 		return func(e *v11Env) error {
@@ -379,8 +393,9 @@ func v11Requests() []v11Req {
 		}
 	}
 	addS("WriteControl/START-with-map", false, mapSetup(2), wc(WriteControlConfig{Request: "START", Path: "@", WriteLJH22: true}))
-	addS("WriteControl/START-with-map-of-wrong-size", true, mapSetup(3), wc(WriteControlConfig{Request: "START", Path: "@", WriteLJH22: true}))
-	rs = append(rs, v11Req{name: "WriteControl/START-with-map-channel-numbers-from-0", wantErr: true, zeroBased: true, setup: mapSetup(2),
+	rs = append(rs, v11Req{name: "WriteControl/START-with-map-of-wrong-size", wantErr: true, cured: true, setup: mapSetup(3),
+		call: wc(WriteControlConfig{Request: "START", Path: "@", WriteLJH22: true})})
+	rs = append(rs, v11Req{name: "WriteControl/START-with-map-channel-numbers-from-0", wantErr: true, cured: true, zeroBased: true, setup: mapSetup(2),
 		call: wc(WriteControlConfig{Request: "START", Path: "@", WriteLJH22: true})})
 
 	label := func(l string) func(e *v11Env) error {
@@ -487,7 +502,8 @@ func v11NewControl(src *v11Source) *SourceControl {
 	sc.heartbeats = make(chan Heartbeat, 4096)
 	sc.queuedRequests = make(chan func())
 	sc.queuedResults = make(chan error)
-	sc.clientUpdates = make(chan ClientUpdate, 1<<16)
+	src.updates = make(chan ClientUpdate, 1<<16)
+	sc.clientUpdates = src.updates
 	sc.mapServer = newMapServer()
 	sc.mapServer.clientUpdates = sc.clientUpdates
 	sc.status.Npresamp, sc.status.Nsamples = 4, 12
@@ -512,6 +528,56 @@ func v11Start(sc *SourceControl, src *v11Source) error {
 	sc.broadcastStatus()
 	sc.broadcastTriggerState()
 	return nil
+}
+
+// v11Watch: what a client can see of the server status. A request answered with an error has been refused: the
+// STATUS content (ServerStatus) afterwards, and every STATUS message sent while it was handled, must equal the
+// status before the request.
+type v11Watch struct {
+	sc     *SourceControl
+	q      chan ClientUpdate
+	before string
+}
+
+func v11StatusText(st ServerStatus) string { return fmt.Sprintf("%+v", st) }
+
+// v11DrainStatus empties the client-update queue and returns the STATUS messages that were in it.
+func v11DrainStatus(q chan ClientUpdate) []string {
+	var out []string
+	for {
+		select {
+		case u := <-q:
+			if u.tag != "STATUS" {
+				continue
+			}
+			switch st := u.state.(type) {
+			case ServerStatus:
+				out = append(out, v11StatusText(st))
+			case *ServerStatus:
+				out = append(out, v11StatusText(*st))
+			}
+		default:
+			return out
+		}
+	}
+}
+
+func v11NewWatch(sc *SourceControl, src *v11Source) *v11Watch {
+	v11DrainStatus(src.updates)
+	return &v11Watch{sc: sc, q: src.updates, before: v11StatusText(sc.status)}
+}
+
+// changed returns "" if nothing a client can see of the server status differs from the status before the request.
+func (w *v11Watch) changed() string {
+	for _, m := range v11DrainStatus(w.q) {
+		if m != w.before {
+			return fmt.Sprintf("a STATUS message sent while it was handled says %s; before the request the status was %s", m, w.before)
+		}
+	}
+	if now := v11StatusText(w.sc.status); now != w.before {
+		return fmt.Sprintf("the server status is now %s; before the request it was %s", now, w.before)
+	}
+	return ""
 }
 
 var v11Seq int
@@ -613,6 +679,7 @@ func v11RunArgs(x *vexp.X, rq v11Req, running bool) vexp.Result {
 				rq.setup(env)
 			}
 		}
+		w := v11NewWatch(sc, src)
 		err := rq.call(env)
 		outcome = fmt.Sprintf("err=%v", err != nil)
 		x.Logf("%s -> %v", rq.name, err)
@@ -626,6 +693,11 @@ func v11RunArgs(x *vexp.X, rq v11Req, running bool) vexp.Result {
 			fail("invalid-request-accepted", "%s returned nil; the arguments are invalid (or the I/O step failed), an error is required", rq.name)
 		case !rq.wantErr && err != nil:
 			fail("valid-request-rejected", "%s returned %v for valid arguments", rq.name, err)
+		}
+		if err != nil {
+			if d := w.changed(); d != "" {
+				fail("rejected-request-changed-server-status", "%s was answered with the error %q, but %s", rq.name, err, d)
+			}
 		}
 		if !running {
 			return
@@ -651,6 +723,137 @@ func v11RunArgs(x *vexp.X, rq v11Req, running bool) vexp.Result {
 	s := vhook.Run(x, vhook.Options{MaxSteps: 600, Names: []string{"requester"}}, requester)
 	r := v11Finish(x, s, rq.name, src, res)
 	r.Outcome = rq.name + " " + outcome
+	return r
+}
+
+// part 1b: request histories with one requester thread.
+//
+//	repeat:  an invalid request (argument class or I/O fault) is sent twice in a row. Its arguments are as invalid the
+//	         second time as the first: both replies must be errors, and neither changes the server status.
+//	restart: a request (any class of the alphabet), then Stop, Start (SourceControl.Start hands the record lengths of
+//	         the server status to the new run), an edge trigger on both channels and two blocks with pulses. The new run
+//	         must work with the record lengths of the last record-length request that was answered with success (the
+//	         initial ones if there was none), its triggered records must have that shape, and nothing may crash or hang.
+func v11RunHistory(x *vexp.X, rq v11Req, mode string) vexp.Result {
+	src := v11New("idle", 0)
+	src.zeroBased = rq.zeroBased
+	sc := v11NewControl(src)
+	env := &v11Env{sc: sc, src: src, dir: v11Dir(), npre: 4, nsam: 12}
+	res := &v11Result{}
+	fail := func(c, f string, a ...interface{}) {
+		if res.viol == "" {
+			res.viol, res.class = fmt.Sprintf(f, a...), c
+		}
+	}
+	origRec, origSum := PubRecordsChan, PubSummariesChan
+	if mode == "restart" {
+		// triggered records of this execution go to private queues, read by the requester after every block
+		src.pulses, src.keepPub = true, true
+		PubRecordsChan = make(chan []*DataRecord, 64)
+		PubSummariesChan = make(chan []*DataRecord, 64)
+	}
+	recQ, sumQ := PubRecordsChan, PubSummariesChan
+	var outcome string
+	stop := func(what string) bool {
+		var ok bool
+		d := ""
+		if err := sc.Stop(&d, &ok); err != nil {
+			fail("stop-error", "%s: Stop returned %v", what, err)
+			return false
+		}
+		return true
+	}
+	requester := func() {
+		if err := v11Start(sc, src); err != nil {
+			fail("harness-start", "Start failed: %v", err)
+			return
+		}
+		if rq.setup != nil {
+			rq.setup(env)
+		}
+		var ok bool
+		switch mode {
+		case "repeat":
+			w := v11NewWatch(sc, src)
+			err1 := rq.call(env)
+			d1 := w.changed()
+			err2 := rq.call(env)
+			d2 := w.changed()
+			outcome = fmt.Sprintf("err=%v,%v", err1 != nil, err2 != nil)
+			x.Logf("%s -> %v; again -> %v", rq.name, err1, err2)
+			switch {
+			case err1 == nil:
+				fail("invalid-request-accepted", "%s returned nil; the arguments are invalid (or the I/O step failed), an error is required", rq.name)
+			case err2 == nil && !rq.cured:
+				fail("repeated-invalid-request-accepted", "%s was answered with the error %q; the identical request sent again returned nil (its arguments are as invalid, or its I/O step fails, as before)", rq.name, err1)
+			case d1 != "":
+				fail("rejected-request-changed-server-status", "%s was answered with the error %q, but %s", rq.name, err1, d1)
+			case err2 != nil && d2 != "":
+				fail("rejected-request-changed-server-status", "%s, sent a second time, was answered with the error %q, but %s", rq.name, err2, d2)
+			}
+			// data processing goes on and a valid request is answered
+			src.demandBlock()
+			<-src.doneCh
+			if err := sc.ConfigureTriggers(&FullTriggerState{ChannelIndices: []int{0}, TriggerState: TriggerState{}}, &ok); err != nil {
+				fail("follow-up-request-failed", "after %s (twice) a valid ConfigureTriggers returned %v", rq.name, err)
+			}
+			stop("after the repeated request")
+		case "restart":
+			wantPre, wantSamp := sc.status.Npresamp, sc.status.Nsamples
+			err := rq.call(env)
+			if err == nil && rq.lengths != [2]int{} {
+				wantPre, wantSamp = rq.lengths[0], rq.lengths[1] // accepted: these are the record lengths from now on
+			}
+			x.Logf("%s -> %v; lengths the next run has to use: npre=%d nsamp=%d", rq.name, err, wantPre, wantSamp)
+			if !stop("first run") {
+				return
+			}
+			if err := v11Start(sc, src); err != nil {
+				fail("restart-failed", "%s (reply: %v), Stop, then Start: Start returned %v", rq.name, err, err)
+				return
+			}
+			npre, nsamp, lerr := src.getPulseLengths()
+			if lerr != nil || npre != wantPre || nsamp != wantSamp {
+				fail("restart-with-refused-lengths", "%s was answered with %v; after Stop and Start the source runs with npre=%d nsamp=%d (err=%v), the last accepted record lengths are npre=%d nsamp=%d",
+					rq.name, err, npre, nsamp, lerr, wantPre, wantSamp)
+				outcome = fmt.Sprintf("err=%v lengths=%d/%d", err != nil, npre, nsamp)
+				stop("second run")
+				return
+			}
+			if err := sc.ConfigureTriggers(&FullTriggerState{ChannelIndices: []int{0, 1}, TriggerState: TriggerState{EdgeTrigger: true, EdgeRising: true, EdgeLevel: 100}}, &ok); err != nil {
+				fail("follow-up-request-failed", "after %s, Stop and Start a valid ConfigureTriggers returned %v", rq.name, err)
+			}
+			nrec := 0
+			for i := 0; i < 2; i++ {
+				src.demandBlock()
+				<-src.doneCh
+				for more := true; more; {
+					select {
+					case recs := <-recQ:
+						for _, r := range recs {
+							nrec++
+							if len(r.data) != wantSamp || r.presamples != wantPre {
+								fail("record-with-refused-lengths", "after %s (reply: %v), Stop and Start a triggered record has %d samples, %d of them pretrigger; the last accepted record lengths are npre=%d nsamp=%d",
+									rq.name, err, len(r.data), r.presamples, wantPre, wantSamp)
+							}
+						}
+					case <-sumQ:
+					default:
+						more = false
+					}
+				}
+			}
+			if nrec == 0 {
+				fail("harness-vacuous", "no record was triggered in the run after the restart (two blocks with a pulse each, edge trigger on)")
+			}
+			outcome = fmt.Sprintf("err=%v lengths=%d/%d records=%d", err != nil, npre, nsamp, nrec)
+			stop("second run")
+		}
+	}
+	s := vhook.Run(x, vhook.Options{MaxSteps: 900, Names: []string{"requester"}}, requester)
+	r := v11Finish(x, s, mode+"/"+rq.name, src, res)
+	PubRecordsChan, PubSummariesChan = origRec, origSum
+	r.Outcome = mode + " " + rq.name + " " + outcome
 	return r
 }
 
@@ -778,7 +981,7 @@ func v11RunAbaco(x *vexp.X) vexp.Result {
 		close(started)
 		var ok bool
 		errs[0] = sc.ConfigureTriggers(&FullTriggerState{ChannelIndices: []int{0, 1}, TriggerState: TriggerState{EdgeTrigger: true, EdgeRising: true, EdgeLevel: 30000}}, &ok) // never fires: nobody reads the record channels here
-		<-src.done // a block has been processed after the request
+		<-src.done                                                                                                                                                             // a block has been processed after the request
 		errs[1] = sc.ConfigurePulseLengths(SizeObject{Nsamp: 8, Npre: 4}, &ok)
 		d := ""
 		errs[2] = sc.Stop(&d, &ok)
@@ -842,11 +1045,15 @@ func TestVerifC11(t *testing.T) {
 	if r.Thorough() {
 		pb = 2
 	}
-	r.SetBound(fmt.Sprintf("part 1: every request type x argument class x I/O fault (%d classes), with and without a running source, one requester thread, followed by two blocks, two further requests and Stop; part 2: all interleavings with at most %d preemptions (all select alternatives) of a requester issuing 1-2 requests of each closure shape, the real CoreLoop, a producer that idles / sends an error block / closes its channel after 0-1 blocks, and optionally a concurrent Stop caller or a second requester", len(v11Requests()), pb))
+	r.SetBound(fmt.Sprintf("part 1: every request type x argument class x I/O fault (%d classes), with and without a running source, one requester thread, followed by two blocks, two further requests and Stop; every class that has to be refused also sent twice in a row; every class also followed by Stop, Start, an edge trigger and two blocks with pulses; part 2: all interleavings with at most %d preemptions (all select alternatives) of a requester issuing 1-2 requests of each closure shape, the real CoreLoop, a producer that idles / sends an error block / closes its channel after 0-1 blocks, and optionally a concurrent Stop caller or a second requester", len(v11Requests()), pb))
 	for _, rq := range v11Requests() {
 		rq := rq
 		r.DFS("args/running/"+rq.name, 0, func(x *vexp.X) vexp.Result { return v11RunArgs(x, rq, true) })
 		r.DFS("args/no-source/"+rq.name, 0, func(x *vexp.X) vexp.Result { return v11RunArgs(x, rq, false) })
+		if rq.wantErr {
+			r.DFS("args/repeat/"+rq.name, 0, func(x *vexp.X) vexp.Result { return v11RunHistory(x, rq, "repeat") })
+		}
+		r.DFS("args/restart/"+rq.name, 0, func(x *vexp.X) vexp.Result { return v11RunHistory(x, rq, "restart") })
 	}
 	var tms []v11Timing
 	shapes := []string{"trigger", "lengths", "group", "label", "write", "comment", "raw"}
